@@ -316,6 +316,41 @@ def _seq_cases(rng, tier):
         yield "generate_seq %s 0 0 2 same %d %d %d" % (ws[2 * i], rng.choice([0, 1]), *rng.choice([(0, 2), (1, 4)])), "held-report-same-wallet"
 
 
+def extra_checks(rng, tier, g, info):
+    """long-lived wallet object: the chain nodes a report runs through are used heavily first (S distinct children
+    derived under each external-chain node, S above every small literal of the source, common.soak_size), then
+    reports for early / middle / late intervals are produced on the SAME wallet object and recomputed independently"""
+    S = common.soak_size(PID, tier)
+    sd = bytes(rng.getrandbits(8) for _ in range(32))
+    t = rng.choice("01")
+    spec = "seedb:%s:%s" % (hx(sd), t)
+    w = impl.make_wallet(spec)
+    coin = 1 if t == "1" else 0
+    pumped = 0
+    for purpose in (44, 49, 84):
+        node = w.by_path("m/%d'/%d'/0'/0" % (purpose, coin))
+        for i in range(S if purpose == 84 else S // 8):
+            node.ckd(i)
+            pumped += 1
+    # also through generate itself (fewer rows: each row costs three addresses)
+    w.generate(account=0, interval=(0, 40 if tier == "quick" else 400))
+    seed, testnet, mn, pw = master_of(spec)
+    for a, b in ((0, 2), (5, 8), (S // 8 - 2, S // 8 + 1), (S - 3, S), (S, S + 2)):
+        try:
+            rep = json.loads(json.dumps(w.generate(account=0, interval=(a, b))))
+        except Exception as e:
+            yield ("# soak: wallet %s after %d derivations, generate(0, (%d, %d))" % (spec, pumped, a, b),
+                   "report failed on a heavily used wallet object: %r" % e)
+            break
+        msg = check_report(rep, seed, testnet, mn, pw, 0, a, b)
+        if msg:
+            yield ("# soak: wallet %s, %d children derived under its external-chain nodes, then generate(0, (%d, %d))"
+                   % (spec, pumped, a, b), "on a heavily used wallet object: " + msg)
+            break
+    info["soak_children_per_node"] = S
+    info["soak_derivations"] = pumped
+
+
 def cases(rng, tier):
     from . import extra
     yield from _cases_core(rng, tier)
